@@ -3,6 +3,7 @@ package rules
 import (
 	"fmt"
 	"go/token"
+	"go/types"
 	"sort"
 	"strings"
 
@@ -41,7 +42,7 @@ func freeCall(x *core.X, ins ssa.Instruction) (cmd string, ok bool) {
 }
 
 func checkC03(p *core.Prog, r *core.Report) {
-	r.Explanation = "Decides structural necessary conditions of exactly-one-reply: (R1) on every path of LockDB.Lock/UnLock (with the helpers that finish a request inlined) the request is answered exactly once, or not at all with exactly one recorded deferral (queued as waiter, ack pending, retry recursion, hand-over); (R2) the asynchronous repliers doTimeOut/doExpried/DoAckLock reply only after a test-and-set of the hold's tombstone inside one shard-mutex section, at most once per path, with the hold's own command and protocol loaded under the mutex; (R3) wakeUpWaitLock/cancelWaitLock tombstone the wait before releasing the mutex and replying; (R4) the text protocol delivers a reply only when its RequestId equals the connection's current lockRequestId; (R5) no pooled command is freed twice or freed while a live hold retains it, on any path; (R6) the text protocol zeroes that request-id filter before it hands a reply to its connection, on every path (a later notice for the same request cannot become a second answer); (R7) UpdateLockedLock makes the request's command the hold's command on every path, which is the summary R5 uses for that call. NOT decided: races between goroutines beyond the mutex/tombstone premises, delivery order on the wire, routing through ProxyServerProtocol (C18)."
+	r.Explanation = "Decides structural necessary conditions of exactly-one-reply: (R1) on every path of LockDB.Lock/UnLock (with the helpers that finish a request inlined) the request is answered exactly once, or not at all with exactly one recorded deferral (queued as waiter, ack pending, retry recursion, hand-over); (R2) the asynchronous repliers doTimeOut/doExpried/DoAckLock reply only after a test-and-set of the hold's tombstone inside one shard-mutex section, at most once per path, with the hold's own command and protocol loaded under the mutex; (R3) wakeUpWaitLock/cancelWaitLock tombstone the wait before releasing the mutex and replying; (R4) the text protocol delivers a reply only when its RequestId equals the connection's current lockRequestId; (R5) no pooled command is freed twice or freed while a live hold retains it, on any path; (R6) the text protocol zeroes that request-id filter before it hands a reply to its connection, on every path (a later notice for the same request cannot become a second answer); (R7) UpdateLockedLock makes the request's command the hold's command on every path, which is the summary R5 uses for that call; (R8) every text handler that hands a request to the engine takes the engine's answer out of the reply channel before it returns. NOT decided: races between goroutines beyond the mutex/tombstone premises, delivery order on the wire, routing through ProxyServerProtocol (C18)."
 	r.Assumptions = []string{
 		"Go type checker, go/ssa and VTA call graph are correct for /repo",
 		"a reply is a call of a method named ProcessLockResultCommand[Locked]",
@@ -54,6 +55,7 @@ func checkC03(p *core.Prog, r *core.Report) {
 	c03R5(p, r)
 	c03R6(p, r)
 	c03R7(p, r)
+	c03R8(p, r)
 }
 
 // finishing helpers: they answer or hand over the request they are given.
@@ -699,5 +701,97 @@ func c03R7(p *core.Prog, r *core.Report) {
 	}
 	if n == 0 {
 		r.Fail("C03/R7: UpdateLockedLock has no return")
+	}
+}
+
+// ---------------------------------------------------------------------------
+// R8 text protocol: the engine answers a request handed to it by a text
+// connection through the connection's reply channel (lockWaiter). A handler
+// that hands a request to the engine and returns without taking the answer
+// out of the channel leaves it there: the next command on the connection is
+// answered with it, and every later reply is shifted by one.
+func c03R8(p *core.Prog, r *core.Report) {
+	const rule = "C03/R8"
+	r.Rule(rule, "every TextServerProtocol method that hands a request to the engine (LockDB.Lock / UnLock with itself as the protocol) takes the engine's answer from lockWaiter before it returns, on every path where the engine accepted the request", 4)
+	n := 0
+	for _, fn := range p.FuncsIn("server") {
+		if fn.Blocks == nil || p.IsNewFunc(fn) || recvName(fn) != "TextServerProtocol" || len(fn.Params) == 0 {
+			continue
+		}
+		// the will drain and the generic dispatcher are not request handlers of the connection's reader
+		if fn.Name() == "Close" || fn.Name() == "ProcessLockCommand" || fn.Name() == "ProcessCommad" {
+			continue
+		}
+		engine := false
+		for _, b := range fn.Blocks {
+			for _, ins := range b.Instrs {
+				if calleeIs(ins, "LockDB", "Lock") || calleeIs(ins, "LockDB", "UnLock") {
+					if args := core.CallArgs(ins); len(args) > 1 {
+						if mi, ok := args[1].(*ssa.MakeInterface); ok && mi.X == ssa.Value(fn.Params[0]) {
+							engine = true
+						}
+					}
+				}
+			}
+		}
+		if !engine {
+			continue
+		}
+		name := core.FuncName(fn)
+		bad := false
+		ex := core.NewExplorer(p, core.Hooks{
+			Track: func(x *core.X, a core.Atom) bool {
+				s := core.Plain(a.String())
+				return strings.HasPrefix(s, "Lock(") || strings.HasPrefix(s, "UnLock(")
+			},
+			Instr: func(x *core.X) {
+				if !x.Top() {
+					return
+				}
+				if calleeIs(x.Ins, "LockDB", "Lock") || calleeIs(x.Ins, "LockDB", "UnLock") {
+					x.Set("handed", core.Plain(x.Canon(x.Ins.(ssa.Value)).S))
+					x.Set("taken", "")
+					return
+				}
+				switch t := x.Ins.(type) {
+				case *ssa.UnOp:
+					if t.Op == token.ARROW && strings.HasSuffix(core.Plain(x.Canon(t.X).S), ".lockWaiter") {
+						x.Set("taken", "1")
+					}
+				case *ssa.Select:
+					for _, st := range t.States {
+						if st.Dir == types.RecvOnly && strings.HasSuffix(core.Plain(x.Canon(st.Chan).S), ".lockWaiter") {
+							x.Set("taken", "1")
+						}
+					}
+				}
+			},
+			Exit: func(x *core.X, rets []core.Expr) {
+				h := x.Get("handed")
+				if h == "" || x.Get("taken") == "1" || bad {
+					return
+				}
+				// the engine refused the request outright (error result): no answer is in flight
+				for a := range x.St.Hist {
+					if strings.HasPrefix(core.Plain(a), h+" != nil") {
+						return
+					}
+				}
+				bad = true
+				r.Violate(rule, name+": engine's answer taken from lockWaiter", x.Pos(), "the handler hands a request to the engine and returns without receiving the engine's answer from lockWaiter: the answer stays in the channel, the next LOCK / UNLOCK / key command on the connection is answered with it and every later reply on the connection is shifted by one", x.St.Trace)
+			},
+		})
+		ex.Run(fn, nil)
+		if ex.Imprecise != "" {
+			r.Fail("C03/R8 %s: %s", name, ex.Imprecise)
+			continue
+		}
+		n++
+		if !bad {
+			r.Hold(rule, name+": engine's answer taken from lockWaiter", p.Pos(fn.Pos()), "received on every accepting path")
+		}
+	}
+	if n == 0 {
+		r.Fail("C03/R8: no text handler hands a request to the engine")
 	}
 }
